@@ -384,6 +384,29 @@ func RLE(lens []uint8, useRepeat bool, breaks ...int) []CLSym {
 	return seq
 }
 
+// HeaderSeq writes BFINAL, BTYPE=2 and a dynamic header declaring nlit and
+// ndist codes (counts, not field values) whose code lengths are sent as seq.
+// The code-length code is a Huffman code for the symbols of seq (always
+// complete); all 19 of its lengths are sent if full, else trailing zeros in
+// transmission order are trimmed. seq itself is not checked in any way.
+func HeaderSeq(w *BitWriter, final bool, nlit, ndist int, seq []CLSym, full bool) {
+	freq := make([]int, 19)
+	for _, s := range seq {
+		freq[s.Sym]++
+	}
+	cl := LensFromFreq(freq, 7)
+	for i := 0; Classify(cl) == "single" || Classify(cl) == "empty"; i++ {
+		if cl[i] == 0 { // make the code-length code complete
+			cl[i] = 1
+		}
+	}
+	hclen := 19
+	for !full && hclen > 4 && cl[clOrder[hclen-1]] == 0 {
+		hclen--
+	}
+	DynamicHeaderRaw(w, final, nlit-257, ndist-1, hclen-4, [19]uint8(cl), seq)
+}
+
 // DynamicHeader writes the block header and the dynamic header for the given
 // code lengths (litLens up to 288 entries, distLens up to 32; shorter slices
 // are zero padded) and returns a SymWriter bound to those codes. The lengths
@@ -426,24 +449,7 @@ func DynamicHeader(w *BitWriter, final bool, litLens, distLens []uint8, opt DynO
 	} else {
 		seq = RLE(all, opt.UseRepeat)
 	}
-	freq := make([]int, 19)
-	for _, s := range seq {
-		freq[s.Sym]++
-	}
-	cl := LensFromFreq(freq, 7)
-	if Classify(cl) == "single" { // make the code-length code complete
-		for i := range cl {
-			if cl[i] == 0 {
-				cl[i] = 1
-				break
-			}
-		}
-	}
-	hclen := 19
-	for !opt.FullHCLEN && hclen > 4 && cl[clOrder[hclen-1]] == 0 {
-		hclen--
-	}
-	DynamicHeaderRaw(w, final, nlit-257, ndist-1, hclen-4, [19]uint8(cl), seq)
+	HeaderSeq(w, final, nlit, ndist, seq, opt.FullHCLEN)
 	return NewSymWriter(w, pad(litLens, nlit), pad(distLens, ndist)), nil
 }
 
